@@ -812,6 +812,10 @@ func (s *Syncer) peerLoop(ctx context.Context) error {
 	return nil
 }
 
+// errNoCommonHistory is returned when a peer does not recognize any block of
+// our history sample.
+var errNoCommonHistory = errors.New("no common history")
+
 func (s *Syncer) syncLoop(ctx context.Context) error {
 	ticker := time.NewTicker(s.config.SyncInterval)
 	defer ticker.Stop()
@@ -864,7 +868,7 @@ func (s *Syncer) syncLoop(ctx context.Context) error {
 						}
 						return cs, headers, remaining, nil
 					}
-					return consensus.State{}, nil, 0, errors.New("no common history")
+					return consensus.State{}, nil, 0, errNoCommonHistory
 				}()
 				respChan <- resp{peer: p, cs: cs, headers: headers, remaining: remaining, err: err}
 			}(p)
@@ -872,7 +876,13 @@ func (s *Syncer) syncLoop(ctx context.Context) error {
 		// sync each set of headers as they arrive
 		seen := make(map[types.BlockID]bool)
 		for range peers {
-			if r := <-respChan; r.err != nil {
+			if r := <-respChan; errors.Is(r.err, errNoCommonHistory) {
+				// the peer has none of the blocks in our history sample on its
+				// best chain, e.g. because it was bootstrapped from a checkpoint
+				// above them. There is nothing we can fetch from it, but it is
+				// not misbehaving and may be syncing from us: keep it connected.
+				r.peer.setSynced(true)
+			} else if r.err != nil {
 				r.peer.setErr(r.err)
 			} else if len(r.headers) == 0 {
 				r.peer.setSynced(true)
